@@ -969,6 +969,20 @@ public:
         sandbox_callback_interceptor<detail::rlbox_remove_wrapper_t<T_Ret>,
                                      detail::rlbox_remove_wrapper_t<T_Args>...>;
 
+      // If the backend refuses the registration (for instance because it has
+      // no free entry point) the function has not been registered
+      bool backend_registered = false;
+      auto forget_key_on_failure = detail::make_scope_exit([&] {
+        if (!backend_registered) {
+          std::lock_guard<std::mutex> lock(callback_lock);
+          auto el_ref =
+            std::find(callback_keys.begin(), callback_keys.end(), unique_key);
+          if (el_ref != callback_keys.end()) {
+            callback_keys.erase(el_ref);
+          }
+        }
+      });
+
       auto callback_trampoline = this->template impl_register_callback<
         detail::convert_to_sandbox_equivalent_t<
           detail::rlbox_remove_wrapper_t<T_Ret>,
@@ -976,6 +990,7 @@ public:
         detail::convert_to_sandbox_equivalent_t<
           detail::rlbox_remove_wrapper_t<T_Args>,
           T_Sbx>...>(unique_key, reinterpret_cast<void*>(callback_interceptor));
+      backend_registered = true;
 
       auto tainted_func_ptr = reinterpret_cast<
         detail::rlbox_tainted_opaque_to_tainted_t<T_Ret, T_Sbx> (*)(
